@@ -58,6 +58,11 @@ def quiet(f, *a, **k):
 
 import timeaxis  # noqa: E402
 from timeaxis import touches_leap  # noqa: E402,F401  (the ONE classifier predicate: mirror of Spec.touchesLeap, compared with Lean every run)
+# wave 5: Props/C01w (settlement df of a deposit knot must be the built curve's own; knot and valuation must use one accrual factor)
+from props.c01_w5 import W5_PROPS, W5_RULE  # noqa: E402
+PROPS = PROPS + [m_ for m_ in W5_PROPS if m_ not in PROPS]
+RULE = RULE + W5_RULE
+
 
 
 def run(ctx):
@@ -1047,6 +1052,11 @@ def run(ctx):
         ctx.violation('IborSingleCurve: bootstrap raised on an admissible quote set', dw | {'error': type(ex).__name__ + ': ' + str(ex)[:120]},
                       finding='C01/spot-lag-without-swaps', clause='build-raises')
     ctx.count('witness/structural', 17)
+    # ---- wave 5 (props/c01_w5.py): every two-date day count x month-end maturities, spot lags 0..3 / O/N-T/N-spot ladders, and dual
+    # curves on a discount curve that is INDEPENDENT of the index quotes - through the same oracles (check_curve / tie_curve)
+    from props import c01_w5  # noqa: E402
+    c01_w5.run_extra(ctx, {'check_curve': check_curve, 'tie_curve': tie_curve, 'tick': tick, 'quiet': quiet, 'ds': ds, 'mk_depo': mk_depo,
+                           'mk_fra': mk_fra, 'mk_swap': mk_swap, 'mk_ois': mk_ois, 'newton_log': newton_log, 'local': local})
     # ---- the implementation's knot vectors through the C02 interpolation model
     if ops and drivers_ok:
         try:
@@ -1246,6 +1256,12 @@ def replay(ctx, path):
                 pre.fit(np.array(c['times'][:k_], dtype=float), np.array(c['dfs'][:k_], dtype=float))
                 print(f"  fit of the first {k_} knots -> {float(pre.interpolate(float(c['t'])))!r}")
         print(' recorded case:', json.dumps(c, default=str)[:1200])
+        return 1
+    if str(c.get('generator', '')).startswith('wave5'):
+        from props import c01_w5
+        c01_w5.replay_case(v, quiet)
+        print(' recorded case:', json.dumps(c, default=str)[:1200])
+        print(f'VIOLATION property=C01 replay={path}')
         return 1
     vd = Dd(c['valuation'])
     ddc = DCT[c.get('deposit_dc', 'ACT_360')]
